@@ -575,9 +575,87 @@ func c16Jobs(tier string) []*SeqJob {
 		fmt.Sscan(ops[4], &vi)
 		return guard(func() (string, string) { return ubCheck(ops[0], m3thrift.MetricType(ty), nl, nt, vi) })
 	}
-	return []*SeqJob{one, hetero, reuse, ub}
+	return []*SeqJob{one, hetero, reuse, ub, c16ReadTransportJob(tier)}
 }
 
 type stringer string
 
 func (s stringer) String() string { return string(s) }
+
+// c16ReadTransportJob: decoding goes through ONE reused TBufferedReadTransport and protocol object, the way a udp
+// listener uses them: Write(packet), then read the batch. Histories of packets: two good batches, a packet in the
+// other wire protocol, a truncated packet, a packet with trailing bytes, an empty packet. Every good packet decodes
+// to exactly the batch that was encoded, whatever packets - accepted or refused part-way - came before it.
+func c16ReadTransportJob(tier string) *SeqJob {
+	alphabet := []string{"good A", "good B", "other protocol", "truncated", "trailing bytes", "empty"}
+	depth := tierInt(tier, 4, 5)
+	shapeA := c16Shape{nMetrics: 2, nTags: 2, nCommon: 2, nameLen: 5, tagLen: 3, i64: 7, f64: 1.5, mtype: 1}
+	shapeB := c16Shape{nMetrics: 17, nTags: 1, nCommon: 0, nameLen: 130, tagLen: 1, i64: -9, f64: 2.5, mtype: 2}
+	other := map[string]string{"compact": "binary", "binary": "compact"}
+	exec := func(kind string) func(hist []int) (string, string, string, int) {
+		encA, _ := newCodec(kind).encode(shapeA.build())
+		encB, _ := newCodec(kind).encode(shapeB.build())
+		encO, _ := newCodec(other[kind]).encode(shapeA.build())
+		return func(hist []int) (cl, det, key string, steps int) {
+			cl, det = guard(func() (string, string) {
+				tr, err := customtransport.NewTBufferedReadTransport(bytes.NewBuffer(nil))
+				if err != nil {
+					return "new-transport", err.Error()
+				}
+				p := protoFactory(kind).GetProtocol(tr)
+				for i, op := range hist {
+					steps++
+					var pkt []byte
+					var want *m3thrift.MetricBatch
+					switch alphabet[op] {
+					case "good A":
+						pkt, want = append([]byte{}, encA...), shapeA.build()
+					case "good B":
+						pkt, want = append([]byte{}, encB...), shapeB.build()
+					case "other protocol":
+						pkt = append([]byte{}, encO...)
+					case "truncated":
+						pkt = append([]byte{}, encB[:len(encB)/2]...)
+					case "trailing bytes":
+						pkt = append(append([]byte{}, encA...), 0x7f, 0x7f, 0x7f)
+					case "empty":
+						pkt = []byte{}
+					}
+					if n, werr := tr.Write(pkt); werr != nil || n != len(pkt) {
+						return "read-transport-write", fmt.Sprintf("[%s] %v: Write of packet %d (%d bytes) returned %d, %v", kind, histLabels(alphabet, hist), i, len(pkt), n, werr)
+					}
+					var got m3thrift.MetricBatch
+					rerr := got.Read(p)
+					if want == nil {
+						continue // a packet that is not a good batch: whatever the decoder says about it
+					}
+					if rerr != nil {
+						return "good-packet-does-not-decode", fmt.Sprintf("[%s] %v: packet %d (%s): %v", kind, histLabels(alphabet, hist), i, alphabet[op], rerr)
+					}
+					if d := batchEq(&got, want); d != "" {
+						return "round-trip-differs", fmt.Sprintf("[%s] %v: packet %d (%s) decoded through the reused read transport: %s", kind, histLabels(alphabet, hist), i, alphabet[op], d)
+					}
+				}
+				key = fmt.Sprint(kind, hist) // the transport and the protocol may remember: no merging
+				return "", ""
+			})
+			return
+		}
+	}
+	j := &SeqJob{Property: "C16", Name: "decode-histories-through-one-read-transport"}
+	j.Run = func(ctx *SeqCtx) {
+		for _, kind := range []string{"compact", "binary"} {
+			ctx.OpsPrefix = []string{kind}
+			ctx.ResetSeen()
+			bfs(ctx, alphabet, depth, exec(kind))
+			if ctx.viol != nil || ctx.st.TimedOut {
+				return
+			}
+		}
+	}
+	j.Replay = func(ops []string) (string, string) {
+		c, d, _, _ := exec(ops[0])(opIndex(alphabet, ops[1:]))
+		return c, d
+	}
+	return j
+}
